@@ -264,6 +264,8 @@ type RenderOpts struct {
 	Name             string       // change name, "" for unnamed
 	Comments         []string     // description lines directly above the header
 	ImportsPlus      []ref.Import // "+import" lines of the change
+	PkgMinus         string       // package clause on a context / '-' line ("" = none)
+	PkgPlus          string       // package clause on a context / '+' line (== PkgMinus: context line)
 }
 
 // ErrLayout is returned when the elisions cannot be laid out so that the
@@ -302,6 +304,7 @@ func Render(m *Mined, opts RenderOpts) (*Rendered, error) {
 		spec.Holes[k] = v
 	}
 	spec.ImportsPlus = opts.ImportsPlus
+	spec.PkgMinus, spec.PkgPlus = opts.PkgMinus, opts.PkgPlus
 	return Assemble(spec, opts)
 }
 
